@@ -98,7 +98,7 @@ PROPS = {
                              "accepted if it belongs to some violated requirement (messages are not compared)"]),
     "C09": dict(bin="c09", oracle=False,
                 legs={"quick": [N],
-                      "thorough": [N, MIRI(0.002), ASAN(0.1), VALGRIND(0.02)]},
+                      "thorough": [N, MIRI(0.001), ASAN(0.05), VALGRIND(0.01)]},
                 gates=[("counter_min", "elements_compared", 5000), ("counter_min", "placement_elements_checked", 5000),
                        ("counter_min", "empty_queries", 10), ("counter_min", "combined_rank_above_6", 10),
                        ("counter_min", "zero_length_trailing_axis_cases", 5), ("counter_min", "array_into_compared", 300),
@@ -106,14 +106,14 @@ PROPS = {
                 assumptions=["placement probe: the recording strategy's code f(x, lane) is injective on the queries used"]),
     "C13": dict(bin="c13", oracle=False,
                 legs={"quick": [N],
-                      "thorough": [N, MIRI(0.002), ASAN(0.1)]},
+                      "thorough": [N, MIRI(0.001), ASAN(0.05)]},
                 gates=[("counter_min", "observations_compared", 20000), ("counter_min", "query_storage_variants", 10),
                        ("hist_keys_min", "variation", 10), ("hist_keys_min", "storage_effective", 4),
                        ("hist_keys_min", "data_layout_class", 6)],
                 assumptions=["storage kinds of data/axes are instantiated for f64 data Ix2/IxDyn (1-D) and Ix3/IxDyn (2-D)"]),
     "C14": dict(bin="c14", oracle=False,
                 legs={"quick": [N],
-                      "thorough": [N, ASAN(0.1), VALGRIND(0.02), MIRI(0.002)]},
+                      "thorough": [N, ASAN(0.05), VALGRIND(0.01), MIRI(0.0015)]},
                 gates=[("counter_min", "ok_fully_written_checked", 1000), ("counter_min", "wrong_buffers_rejected", 5000),
                        ("counter_min", "wrong_buffers_rejected_same_count", 500),
                        ("counter_min", "windows_with_leading_and_trailing_slack", 500),
@@ -123,7 +123,7 @@ PROPS = {
                 assumptions=["sentinel = NaN payload no computation on finite data can produce"]),
     "C18": dict(bin="c18", oracle=False,
                 legs={"quick": [N],
-                      "thorough": [N, MIRI(0.004)]},
+                      "thorough": [N, MIRI(0.0015)]},
                 gates=[("counter_min", "user_build_invocations", 200), ("counter_min", "builder_rows", 2000),
                        ("counter_min", "strategy_calls_checked", 3000), ("counter_min", "target_placements_checked", 1000),
                        ("counter_min", "injected_interp_errors", 1000), ("counter_min", "injected_build_errors", 100),
@@ -138,7 +138,7 @@ PROPS = {
                              "Miri is the independent UB arbiter for the cast"]),
     "C17": dict(bin="c17", oracle=False, compile_assert="Send + Sync",
                 legs={"quick": [N],
-                      "thorough": [N, MIRI(0.03, shards=16, history=10, perms=1, **{'max-threads': 3}), TSAN(0.2, shards=2), ASAN(0.05, shards=4)]},
+                      "thorough": [N, MIRI(0.016, shards=16, history=10, perms=1, **{'max-threads': 3}), TSAN(0.1, shards=2), ASAN(0.03, shards=4)]},
                 gates=[("counter_min", "distinct_interleavings_with_overlap", 2), ("counter_min", "overlapping_call_pairs", 100),
                        ("counter_min", "ops_replayed_concurrently", 5000), ("hist_keys_min", "scenario", 4),
                        ("hist_keys_min", "reference_outcome", 3)],
